@@ -228,3 +228,26 @@ func cfgRoutes(cfg map[string]any) map[string][]string {
 	}
 	return out
 }
+
+// cfgRouteSeq reads the "route_sequence" entry of a connector configuration.
+func cfgRouteSeq(cfg map[string]any) map[string][][]string {
+	out := map[string][][]string{}
+	switch m := cfg["route_sequence"].(type) {
+	case map[string][][]string:
+		for k, v := range m {
+			out[k] = v
+		}
+	case map[string]any:
+		for k, v := range m {
+			switch l := v.(type) {
+			case [][]string:
+				out[k] = l
+			case []any:
+				for _, r := range l {
+					out[k] = append(out[k], cfgStrings(map[string]any{"r": r}, "r"))
+				}
+			}
+		}
+	}
+	return out
+}
